@@ -11,8 +11,19 @@ oracle:    independent of the model: the dense equivalent is the matrix read ele
            `operator() const` by the implementation itself; every other operation's result is judged against the
            same operation on that dense matrix (Python), and the read itself against the hand-written pattern
            (mirror / zero outside triangle or band / distinct raw elements).
+compositions: X = M.submatrix_on_diagonal(a,b) (a view whose offset exceeds the packed one) followed by diag_vector(k)
+           for every k of both signs (read, and write through every element), .T() (reads, conversion, .T().diag_vector(k)),
+           element writes at every (i,j), a further submatrix_on_diagonal, and assignment from an expression — for every
+           block of sizes 1..6 (1..10 thorough); judged against the dense block D[a..b, a..b].
+self-referential statements (right-hand side reads the target's own storage): `selfsub`, `selfT`, `selfexpr`,
+           `selfdiag` for sizes 1..7 (1..12 thorough): every equal-size pair of diagonal blocks (disjoint, touching at
+           one corner either way, overlapping, identical) x 5 right-hand-side forms, M = M.T(), M = 2.0*M + M,
+           diag_vector(k) = F(diag_vector(+-k)).  Oracle: evaluate the whole right-hand side on the OLD dense view,
+           then store (pattern positions only; mirrored for symmetric engines); the same statement executed by the
+           library on the dense Matrix is judged the same way (unmasked); `alias=0` is accepted only if target and
+           source share no raw element.  Model: SM.assignExpr (is_aliased_ as coded, temporary copy / in-place path).
 """
-import json, os, sys
+import json, os, sys, time
 import vbuild, vcheck
 
 sys.path.insert(0, os.path.join(vbuild.VERIF, "translate"))
@@ -24,7 +35,8 @@ REQUIRED = ["C17_engines_covered", "C17_zero_outside", "C17_access_overloads_agr
             "C17_stored_injective", "C17_mirror", "C17_row_range", "C17_row_range_covers", "C17_transpose_engine",
             "C17_read", "C17_read_mirror", "C17_write_hits_one", "C17_lvalue", "C17_transpose_view",
             "C17_rhs_traversal", "C17_expression_rows", "C17_to_dense", "C17_assign_raw", "C17_assign_view",
-            "C17_diag_vector", "C17_submatrix", "C17_diag_matrix_view"]
+            "C17_diag_vector", "C17_submatrix", "C17_diag_matrix_view", "C17_alias_conservative",
+            "C17_self_assign_semantics"]
 
 BANDS = [(0, 0), (1, 1), (2, 2), (0, 2), (3, 1), (4, 4), (2, 0), (1, 3)]
 ENGINES = ([("SquareEngine_ROW_MAJOR", 0, 0), ("SquareEngine_COL_MAJOR", 0, 0),
@@ -90,6 +102,63 @@ def ops_for(e, L, U, n, lvalue, rng, full_sub=True):
         out.append("sub %s %d %d" % (pre, a, b))
     if (e, L, U) == ("BandEngine_ROW_MAJOR", 0, 0):
         out += ["dmat %s %d" % (pre, s) for s in (1, 2, 3, 5)]
+    return out
+
+
+def composed_ops_for(e, L, U, n, lvalue, rng, full=True):
+    """operations on the view X = M.submatrix_on_diagonal(a,b) for every block (a,b) (plus two invalid ranges)"""
+    pre = "%s %d %d %d" % (e, L, U, n)
+    out = ["sinfo %s -1 0" % pre, "sdiag %s 0 %d 0" % (pre, n)]
+    for a in range(n):
+        for b in range(a, n):
+            m = b - a + 1
+            ab = "%s %d %d" % (pre, a, b)
+            out += ["sinfo " + ab, "sT " + ab, "sassign " + ab]
+            for k in range(-m + 1, m):
+                out += ["sdiag %s %d" % (ab, k), "sTdiag %s %d" % (ab, k)]
+                ts = list(range(m - abs(k)))
+                if not full and len(ts) > 2:
+                    ts = [0, ts[-1], rng.choice(ts[1:-1])]
+                out += ["swrdiag %s %d %d" % (ab, k, t) for t in ts]
+            cells = [(i, j) for i in range(m) for j in range(m)]
+            if not full and len(cells) > 9:
+                cells = [(0, 0), (0, m - 1), (m - 1, 0), (m - 1, m - 1)] + rng.sample(cells, 5)
+            for (i, j) in cells:
+                out.append("swr %s a %d %d" % (ab, i, j))
+                if lvalue:
+                    out.append("swr %s p %d %d" % (ab, i, j))
+            subs = [(a2, b2) for a2 in range(m) for b2 in range(a2, m)]
+            if not full and len(subs) > 8:
+                subs = [(0, m - 1), (0, 0), (m - 1, m - 1)] + rng.sample(subs, 5)
+            out += ["ssub %s %d %d" % (ab, a2, b2) for (a2, b2) in subs]
+            out += ["ssub %s -1 0" % ab, "ssub %s 0 %d" % (ab, m)]
+    return out
+
+
+BLOCK_FORMS = ("k2", "cp", "sum", "T", "mixT")
+DIAG_FORMS = ("k2", "cp", "sum", "rev")
+
+
+def self_ops_for(e, L, U, n, rng, all_forms=True):
+    """self-referential statements: every equal-size pair of diagonal blocks x right-hand-side forms, whole-matrix
+    forms, diag_vector(k) = F(diag_vector(+-k)); one size-mismatch and one out-of-range probe"""
+    pre = "%s %d %d %d" % (e, L, U, n)
+    out = ["selfT " + pre, "selfexpr " + pre]
+    for m in range(1, n + 1):
+        for a in range(0, n - m + 1):
+            for c in range(0, n - m + 1):
+                # blocks [a,a+m-1] <- [c,c+m-1]: |a-c| >= m disjoint, = m-1 one shared corner, < m-1 overlapping, 0 identical
+                near = abs(a - c) in (0, 1, m - 2, m - 1, m)
+                forms = BLOCK_FORMS if (all_forms or near) else ("k2", BLOCK_FORMS[1 + rng.randrange(4)])
+                for f in forms:
+                    out.append("selfsub %s %d %d %d %d %s" % (pre, a, a + m - 1, c, c + m - 1, f))
+    if n >= 2:
+        out.append("selfsub %s 0 %d 0 %d k2" % (pre, n - 1, n - 2))     # size mismatch
+        out.append("selfsub %s 0 %d 1 %d cp" % (pre, n - 2, n))         # source out of range
+    for k in range(-n + 1, n):
+        for k2 in sorted({k, -k}):
+            for f in DIAG_FORMS:
+                out.append("selfdiag %s %d %d %s" % (pre, k, k2, f))
     return out
 
 
@@ -280,6 +349,10 @@ class Judge:
                 if ints(f["convT"]) != transpose(want, m):
                     return "Matrix(submatrix_on_diagonal(%d,%d).T()) is not the transposed sub-block" % (a, b)
                 return None
+            if op in ("selfsub", "selfT", "selfexpr", "selfdiag"):
+                return self.judge_self(op, args, out)
+            if op in ("sinfo", "sdiag", "sTdiag", "swrdiag", "swr", "sT", "ssub", "sassign"):
+                return self.judge_composed(op, args, out)
             if op in ("expr", "exprT"):
                 N = self.dn()
                 if op == "exprT":
@@ -289,6 +362,214 @@ class Judge:
             return "unknown op"
         except Exception as ex:  # malformed output is a failure of the implementation side, not of the oracle
             return "unparsable result %r (%s)" % (out[:120], ex)
+
+
+def diag_cells(n, k):
+    return [(t, t + k) if k >= 0 else (t - k, t) for t in range(n - abs(k))]
+
+
+def _judge_self(self, op, args, out):
+    """self-referential statement: the whole right-hand side is evaluated on the OLD dense view D, then stored.
+    writes = [(I, J, value)] in statement order, in the semantics of the dense statement."""
+    e, L, U, n, D = self.e, self.L, self.U, self.n, self.D
+    old = lambda i, j: D[i * n + j]
+    through_lvalue = False      # diag_vector views write raw elements directly (any stored position)
+    if op == "selfsub":
+        a, b, c, d = [int(x) for x in args[:4]]
+        f = args[4]
+        ok = lambda lo, hi: 0 <= lo <= hi < n
+        if not (ok(a, b) and ok(c, d)):
+            return None if out == "oob" else "submatrix_on_diagonal with an invalid range did not throw: %s" % out[:60]
+        if b - a != d - c:
+            return None if out == "mismatch" else "blocks of different size did not throw size_mismatch: %s" % out[:60]
+        m = b - a + 1
+        X = lambda i, j: old(c + i, c + j)
+        F = {"k2": lambda i, j: 2 * X(i, j), "cp": X, "sum": lambda i, j: 2 * X(i, j) + X(i, j),
+             "T": lambda i, j: X(j, i), "mixT": lambda i, j: 2 * X(i, j) + X(j, i)}[f]
+        writes = [(a + i, a + j, F(i, j)) for i in range(m) for j in range(m)]
+        src = [(c + i, c + j) for i in range(m) for j in range(m)]
+        stmt = "M.submatrix_on_diagonal(%d,%d) = %s" % (a, b, {"k2": "2.0*X", "cp": "X", "sum": "2.0*X + X", "T": "X.T()",
+                                                                 "mixT": "2.0*X + X.T()"}[f].replace("X", "M.submatrix_on_diagonal(%d,%d)" % (c, d)))
+    elif op == "selfT":
+        writes = [(i, j, old(j, i)) for i in range(n) for j in range(n)]
+        src = [(i, j) for i in range(n) for j in range(n)]
+        stmt = "M = M.T()"
+    elif op == "selfexpr":
+        writes = [(i, j, 3 * old(i, j)) for i in range(n) for j in range(n)]
+        src = [(i, j) for i in range(n) for j in range(n)]
+        stmt = "M = 2.0*M + M"
+    else:
+        k, k2, f = int(args[0]), int(args[1]), args[2]
+        tc, sc = diag_cells(n, k), diag_cells(n, k2)
+        stored = lambda cells: any(self.pat(i, j) for (i, j) in cells)
+        if not (stored(tc) and stored(sc)):
+            return None if out == "oob" else "diag_vector outside the pattern did not throw: %s" % out[:60]
+        if len(tc) != len(sc):
+            return None if out == "mismatch" else "diagonals of different length did not throw size_mismatch"
+        w = [old(i, j) for (i, j) in sc]
+        R = {"k2": [2 * x for x in w], "cp": w, "sum": [3 * x for x in w], "rev": [2 * x for x in reversed(w)]}[f]
+        writes = [(tc[t][0], tc[t][1], R[t]) for t in range(len(tc))]
+        src = sc
+        through_lvalue = True
+        stmt = "M.diag_vector(%d) = %s" % (k, {"k2": "2.0*w", "cp": "w", "sum": "2.0*w + w", "rev": "2.0*w(stride(len-1,0,-1))"}[f]
+                                           .replace("w", "M.diag_vector(%d)" % k2))
+    if out in ("oob", "mismatch"):
+        return "%s threw (%s)" % (stmt, out)
+    fl = fields(out)
+    view, raw, dense = ints(fl["view"]), ints(fl["raw"]), ints(fl["dense"])
+    # the statement on the dense equivalent (library) against evaluate-then-store on D (Python)
+    want_dense = list(D)
+    for (I, J, v) in writes:
+        want_dense[I * n + J] = v
+    # the special matrix: only stored positions are written (designated triangle of a symmetric engine, mirrored)
+    want_view = list(D)
+    want_raw = list(range(1, len(raw) + 1))
+    target_raw = set()
+    for (I, J, v) in writes:
+        if not (self.pat(I, J) if through_lvalue else canonical(e, L, U, I, J)):
+            continue
+        want_view[I * n + J] = v
+        if is_symm(e):
+            want_view[J * n + I] = v
+        want_raw[D[I * n + J] - 1] = v
+        target_raw.add(D[I * n + J])
+    for k in range(n * n):
+        if view[k] != want_view[k]:
+            return ("after %s M(%d,%d)=%d, but evaluating the right-hand side first and then storing gives %d (dense Matrix "
+                    "after the same statement: %d) [alias=%s]" % (stmt, k // n, k % n, view[k], want_view[k], dense[k], fl["alias"]))
+    if raw != want_raw:
+        k = [x != y for x, y in zip(raw, want_raw)].index(True)
+        return "after %s raw element %d holds %d, expected %d" % (stmt, k, raw[k], want_raw[k])
+    if fl["alias"] == "0":
+        shared = target_raw & {D[i * n + j] for (i, j) in src if self.pat(i, j)}
+        if shared:
+            return "%s: is_aliased reports no aliasing although target and source share raw element(s) %s" % (
+                stmt, sorted(x - 1 for x in shared)[:4])
+    if dense != want_dense:
+        k = [x != y for x, y in zip(dense, want_dense)].index(True)
+        return "DENSE:the same statement on the dense Matrix gives D(%d,%d)=%d, evaluate-then-store gives %d [%s]" % (
+            k // n, k % n, dense[k], want_dense[k], stmt.replace("M", "D"))
+    return None
+
+
+Judge.judge_self = _judge_self
+
+
+def _judge_composed(self, op, args, out):
+    """operations on X = M.submatrix_on_diagonal(a,b): X stands for the dense block D[a..b, a..b]"""
+    e, L, U, n, D = self.e, self.L, self.U, self.n, self.D
+    a, b = int(args[0]), int(args[1])
+    rest = args[2:]
+    if not (0 <= a <= b < n):
+        return None if out == "oob" else "submatrix_on_diagonal(%d,%d) did not throw: %s" % (a, b, out[:60])
+    m = b - a + 1
+    X = lambda i, j: D[(a + i) * n + (a + j)]
+    what = "X = M.submatrix_on_diagonal(%d,%d): " % (a, b)
+    if op == "sinfo":
+        if out == "oob":
+            return what + "threw"
+        f = fields(out)
+        ids = [X(i, j) - 1 for i in range(m) for j in range(m) if self.pat(a + i, a + j)]
+        size = int(f["size"])
+        if not (min(ids) == X(0, 0) - 1 and max(ids) - min(ids) < size):
+            return what + "data_range (length %d from raw element %d) does not span its stored elements %d..%d" % (
+                size, X(0, 0) - 1, min(ids), max(ids))
+        return None
+    if op in ("sdiag", "sTdiag"):
+        k = int(rest[0])
+        cells = diag_cells(m, k) if op == "sdiag" else [(j, i) for (i, j) in diag_cells(m, k)]
+        name = what + ("X.diag_vector(%d)" if op == "sdiag" else "X.T().diag_vector(%d)") % k
+        if not any(self.pat(a + i, a + j) for (i, j) in cells):
+            return None if out == "oob" else name + " lies outside the pattern but did not throw"
+        if out == "oob":
+            return name + " threw although the diagonal is stored"
+        want = [X(i, j) for (i, j) in cells]
+        return None if ints(out) == want else "%s = %s, the dense block has %s" % (name, out, want)
+    if op in ("swrdiag", "swr"):
+        if op == "swr":
+            i, j = int(rest[1]), int(rest[2])
+            name = what + "X(%d,%d) = 1000" % (i, j)
+        else:
+            k, t = int(rest[0]), int(rest[1])
+            i, j = diag_cells(m, k)[t]
+            name = what + "X.diag_vector(%d)(%d) = 1000" % (k, t)
+        I, J = a + i, a + j
+        if not self.pat(I, J):
+            return None if out == "oob" else "%s outside the pattern did not throw: %s" % (name, out[:80])
+        if out == "oob":
+            return name + " threw index_out_of_bounds at a stored position"
+        f = fields(out)
+        want = ",".join("%d:%d:1000" % c for c in self.expect_changes(I, J))
+        if f["chg"] != want:
+            return "%s changed dense entries {%s} of M, expected {%s}" % (name, f["chg"], want)
+        if f["raw"] != "%d:1000" % (D[I * n + J] - 1):
+            return "%s changed raw elements {%s}, expected only %d" % (name, f["raw"], D[I * n + J] - 1)
+        return None
+    blk = [X(i, j) for i in range(m) for j in range(m)]
+    if op == "sT":
+        if out == "oob":
+            return what + "threw"
+        f = fields(out)
+        Bt = transpose(blk, m)
+        if ints(f["conv"]) != Bt:
+            return what + "Matrix(X.T()) is not the transposed dense block"
+        if ints(f["get"]) != Bt:
+            return what + "X.T()(i,j) is not X(j,i)"
+        if ints(f["convTT"]) != blk:
+            return what + "Matrix(X.T().T()) is not the dense block"
+        return None
+    if op == "ssub":
+        a2, b2 = int(rest[0]), int(rest[1])
+        if not (0 <= a2 <= b2 < m):
+            return None if out == "oob" else what + "X.submatrix_on_diagonal(%d,%d) did not throw" % (a2, b2)
+        if out == "oob":
+            return what + "X.submatrix_on_diagonal(%d,%d) threw" % (a2, b2)
+        m2 = b2 - a2 + 1
+        want = [X(a2 + i, a2 + j) for i in range(m2) for j in range(m2)]
+        f = fields(out)
+        if ints(f["get"]) != want:
+            return what + "X.submatrix_on_diagonal(%d,%d)(i,j) is not M(%d+i,%d+j)" % (a2, b2, a + a2, a + a2)
+        if ints(f["conv"]) != want:
+            return what + "Matrix(X.submatrix_on_diagonal(%d,%d)) differs from the dense sub-block" % (a2, b2)
+        if ints(f["convT"]) != transpose(want, m2):
+            return what + "Matrix(X.submatrix_on_diagonal(%d,%d).T()) is not the transposed sub-block" % (a2, b2)
+        return None
+    if op == "sassign":
+        if out == "oob":
+            return what + "threw"
+        f = fields(out)
+        raw, view = ints(f["raw"]), ints(f["view"])
+        N = self.dn()
+        want_view = [(-1 if self.pat(i, j) else 0) for i in range(n) for j in range(n)]
+        want_raw = [-1] * len(raw)
+        for i in range(m):
+            for j in range(m):
+                I, J = a + i, a + j
+                if canonical(e, L, U, I, J):
+                    v = 2 * D[I * n + J] + N[J * n + I]
+                    want_view[I * n + J] = v
+                    if is_symm(e):
+                        want_view[J * n + I] = v
+                    want_raw[D[I * n + J] - 1] = v
+        if view != want_view:
+            k = [x != y for x, y in zip(view, want_view)].index(True)
+            return "after S.submatrix_on_diagonal(%d,%d) = 2*X + Y.T(): S(%d,%d)=%d, the dense equivalent has %d" % (
+                a, b, k // n, k % n, view[k], want_view[k])
+        if raw != want_raw:
+            k = [x != y for x, y in zip(raw, want_raw)].index(True)
+            return "after S.submatrix_on_diagonal(%d,%d) = 2*X + Y.T(): raw element %d holds %d, expected %d" % (a, b, k, raw[k], want_raw[k])
+        return None
+    return "unknown op"
+
+
+Judge.judge_composed = _judge_composed
+
+
+def model_text(op, out):
+    """the part of an implementation line that the Lean model reproduces (the dense Matrix statement is not modelled)"""
+    if op.startswith("self") and " dense=" in out:
+        return out[:out.index(" dense=")]
+    return out
 
 
 def split_line(line):
@@ -304,11 +585,16 @@ def signature(e, L, U, op):
 def run_lines(ctx, exe, lines, model_ok, label="main"):
     """impl + (model) + oracle over a list of op lines grouped by (engine, n); returns number of oracle failures"""
     text = "\n".join(lines) + "\n"
+    tm = ctx.notes.setdefault("seconds", {"impl": 0.0, "model": 0.0, "oracle": 0.0})
+    t0 = time.time()
     impl, rc, err = vcheck.run_impl(exe, [], text)
+    tm["impl"] = round(tm["impl"] + time.time() - t0, 1)
     model = None
     if model_ok:
         try:
+            t0 = time.time()
             model = vcheck.run_model("special", text)
+            tm["model"] = round(tm["model"] + time.time() - t0, 1)
         except Exception as ex:   # a model driver that does not run is a broken correspondence, never a silent skip
             ctx.notes["model_driver_error"] = str(ex)[-800:]
             if not any(p.get("model_driver_error") for p in ctx.pending):
@@ -317,6 +603,7 @@ def run_lines(ctx, exe, lines, model_ok, label="main"):
             model = None
     nbad = 0
     judge, key = None, None
+    t0 = time.time()
     for k, line in enumerate(lines):
         op, e, L, U, n, args = split_line(line)
         if (e, L, U, n) != key:
@@ -336,6 +623,8 @@ def run_lines(ctx, exe, lines, model_ok, label="main"):
             nbad += 1
             ctx.cov["oracle_failures"] = ctx.cov.get("oracle_failures", 0) + 1
             sig = signature(e, L, U, op)
+            if msg.startswith("DENSE:"):      # the special matrix is right; the dense Array statement is not (C04's subject)
+                sig, msg = sig + ":dense-statement", msg[6:]
             if sig in ctx.seen_sigs:      # one report per (engine, operation); sizes are visited in increasing order
                 continue
             ctx.seen_sigs.add(sig)
@@ -343,14 +632,15 @@ def run_lines(ctx, exe, lines, model_ok, label="main"):
                           {"kind": "oracle", "ops": ["info %s %d %d %d" % (e, L, U, n), "get %s %d %d %d" % (e, L, U, n), line],
                            "impl": out, "model": (model[k] if model and k < len(model) else None), "message": msg,
                            "cpp_type": TYPEDEFS.get((e, L, U), "SpecialMatrix<Real,%s%s>" % (e, "<%d,%d>" % (L, U) if e.startswith("Band") else "")),
-                           "signature": signature(e, L, U, op)})
-        elif model is not None and (k >= len(model) or model[k] != out):
+                           "signature": sig})
+        elif model is not None and (k >= len(model) or model[k] != model_text(op, out)):
             ctx.cov["disagreements_checked"] += 1
             if len(ctx.pending) < 3:
                 ctx.pending.append({"kind": "correspondence",
                                     "correspondence": "AdeptModel/Generated/Engines.lean + AdeptModel/Special.lean <-> SpecialMatrix.h",
-                                    "ops": [line], "impl": out, "model": model[k] if k < len(model) else None})
+                                    "ops": [line], "impl": model_text(op, out), "model": model[k] if k < len(model) else None})
     ctx.cov["traces_validated_against_impl"] += len(lines) if model is not None else 0
+    tm["oracle"] = round(tm["oracle"] + time.time() - t0, 1)
     return nbad
 
 
@@ -403,25 +693,41 @@ def run(ctx, replay):
             if lines:
                 run_lines(ctx, exe, lines, model_ok, "corpus/" + fn)
     nmax = 9 if ctx.tier == "quick" else 24
+    nself = 7 if ctx.tier == "quick" else 12
+    ncomp = 6 if ctx.tier == "quick" else 10
     ctx.notes["sizes"] = "1..%d" % nmax
+    ctx.notes["sizes_self_referential"] = "1..%d" % nself
+    ctx.notes["sizes_compositions"] = "1..%d" % ncomp
     ctx.notes["engines"] = ["%s(%d,%d)" % k for k in ENGINES]
     bad = 0
     for (e, L, U) in ENGINES:
         lines = []
         for n in range(1, nmax + 1):
             lines += ops_for(e, L, U, n, lv[(e, L, U)], ctx.rng, full_sub=(n <= 12))
+            if n <= ncomp:
+                lines += composed_ops_for(e, L, U, n, lv[(e, L, U)], ctx.rng, full=(n <= 6))
+            if n <= nself:
+                lines += self_ops_for(e, L, U, n, ctx.rng, all_forms=(n <= 7))
         bad += run_lines(ctx, exe, lines, model_ok)
     ctx.cov["rule"] = ("every op line `<op> <engine> <L> <U> <n> args` is one evaluation: 24 engine instantiations (7 typedefs, their "
                        "column-major / opposite-orientation counterparts, band shapes (0,0) (1,1) (2,2) (0,2) (3,1) (4,4) (2,0) (1,3) in both "
                        "orders) x n = 1..%d x {info, get, ptr, dense, fromdense s/a, scalar, T, expr, exprT, assign, assignT} + write at "
                        "EVERY (i,j) (active lvalue; passive too where it compiles) + diag_vector(k) for every k + write through every "
                        "diag_vector element + submatrix_on_diagonal(a,b) for every pair in -1..n (n > 12: edges + 40 random pairs); "
-                       "+ v.diag_matrix() for strides 1,2,3,5; each result compared with the model (exact text) and judged by the dense-equivalent oracle; "
-                       "non-trivial = n >= 2; distinct = different op line" % nmax)
+                       "+ v.diag_matrix() for strides 1,2,3,5; + for n <= %d the compositions X = M.submatrix_on_diagonal(a,b) for EVERY block, then "
+                       "X.diag_vector(k) / X.T().diag_vector(k) for every k of both signs, a write through every diag_vector element, a write at "
+                       "every X(i,j) (active; passive where it compiles), X.T(), every X.submatrix_on_diagonal(a2,b2), X = expr (n > 6: "
+                       "sampled writes and sub-sub-blocks); + for n <= %d the self-referential statements M.submatrix_on_diagonal(a,b) = "
+                       "F(M.submatrix_on_diagonal(c,d)) for EVERY equal-size block pair (disjoint / one shared corner either way / overlapping / "
+                       "identical) x F in {2X, X, 2X+X, X.T(), 2X+X.T()} (n > 7: 2X + one random F away from the corner cases), M = M.T(), "
+                       "M = 2.0*M + M, M.diag_vector(k) = F(M.diag_vector(+-k)) for every k x {2w, w, 2w+w, 2*reversed w}, each also executed "
+                       "on the dense Matrix and judged by evaluate-then-store on the old dense view; each result compared with the model (exact text) and judged by the dense-equivalent oracle; "
+                       "non-trivial = n >= 2; distinct = different op line" % (nmax, ncomp, nself))
     ctx.cov["exhaustive"] = True
     ctx.cov["exhaustive_domain"] = "all (i,j), all k, all (a,b) for the listed engines and sizes"
     ctx.assumptions += ["C++ Index arithmetic does not overflow (the Lean model is over unbounded Int)",
-                        "right-hand sides do not alias the target (aliasing is C04's subject)",
+                        "aliasing right-hand sides: special-matrix leaves on the target's own storage (blocks, transposes, the matrix "
+                        "itself) and diag_vector views; aliasing through dense Array views of other kinds is C04's subject",
                         "values are small integers, exact in double"]
     if (fails or ctx.pending) and not ctx.violations and ctx.tier == "quick":
         # a proof or the correspondence broke and the quick sizes show no property failure: search further with the oracle
@@ -429,6 +735,10 @@ def run(ctx, replay):
             lines = []
             for n in range(10, 13):
                 lines += ops_for(e, L, U, n, lv[(e, L, U)], ctx.rng, full_sub=False)
+            for n in range(8, 11):
+                lines += (["info %s %d %d %d" % (e, L, U, n), "get %s %d %d %d" % (e, L, U, n)]
+                          + self_ops_for(e, L, U, n, ctx.rng, all_forms=False)
+                          + (composed_ops_for(e, L, U, n, lv[(e, L, U)], ctx.rng, full=False) if n == 8 else []))
             run_lines(ctx, exe, lines, False, "search")
         ctx.notes["extended_search"] = "n = 10..12, oracle only"
     report(ctx, fails)
